@@ -3,6 +3,8 @@ package core
 import (
 	"bytes"
 	"fmt"
+	"sort"
+	"strings"
 	"time"
 
 	"github.com/hashicorp/raft-wal/fs"
@@ -27,6 +29,9 @@ type SegCrashCfg struct {
 	Shard       int
 	NShards     int
 	MaxFindings int
+	BigKids     int // level-1 images of the out-of-order large batch expanded per shard
+	// out-of-order families, in chunks: level 1 prefix stride, range unit, single-hole stride; the same for level 2
+	BigStride [6]int
 }
 
 type SegCrashStats struct {
@@ -56,7 +61,9 @@ type segNode struct {
 	gen     int
 }
 
-var segInfo = types.SegmentInfo{ID: 7, BaseIndex: 1, MinIndex: 1, SizeLimit: 1 << 20, Codec: 0}
+// SizeLimit is the size the file is preallocated to, and every crash image is as long as the file: 4 KiB for
+// the small-payload search (at most 6 batches of 3 frames), 256 KiB while the large batches run.
+var segInfo = types.SegmentInfo{ID: 7, BaseIndex: 1, MinIndex: 1, SizeLimit: 4096, Codec: 0}
 
 func segPayload(idx uint64, gen, size int) []byte {
 	b := make([]byte, size)
@@ -122,6 +129,11 @@ type SegCrashEngine struct {
 	cache    map[string]*segObs
 	expanded map[string]bool
 	sigs     map[string]bool
+	// image families for batches too large for subset enumeration: 0 = prefixes of the write;
+	// 1 = prefixes, page ranges missing / alone landed, single chunks missing (level 1 of the out-of-order part);
+	// 2 = the same at coarser strides (level 2)
+	bigFamily int
+	kidFilter func(info simdisk.ImageInfo, o *segObs) bool
 }
 
 func NewSegCrashEngine(c SegCrashCfg, st *SegCrashStats) *SegCrashEngine {
@@ -168,9 +180,20 @@ func (e *SegCrashEngine) stop() bool {
 
 // Run explores breadth first from the empty directory.
 func (e *SegCrashEngine) Run() {
-	if e.C.Shard == 0 {
-		e.largeBatches()
+	if e.C.Shard == 0 || e.C.NShards == 1 {
+		defer e.largeBatches()
 	}
+	// the last third of the time budget belongs to the out-of-order part
+	final := e.C.Deadline
+	e.C.Deadline = final.Add(-time.Until(final) / 3)
+	defer func() {
+		hit := e.Stats.DeadlineHit
+		e.C.Deadline = final
+		if e.C.Shard != 0 || e.C.NShards == 1 {
+			e.largeOutOfOrder(e.C.BigKids)
+		}
+		e.Stats.DeadlineHit = e.Stats.DeadlineHit || hit
+	}()
 	frontier := []*segNode{{st: simdisk.NewState()}}
 	for level := 1; level <= e.C.Depth && len(frontier) > 0; level++ {
 		var next []*segNode
@@ -263,7 +286,21 @@ func (e *SegCrashEngine) crashBatch(n *segNode, level int, shape []int) []*segNo
 	log := d.Log
 	var kids []*segNode
 	seen := map[string]bool{}
-	for _, cp := range CrashPoints(n.st, d.BaseIno, log) {
+	cps := CrashPoints(n.st, d.BaseIno, log)
+	if e.bigFamily > 0 {
+		// out-of-order families: only the crash point with the whole write pending (the earlier ones have a
+		// prefix of its pwrites pending, which the prefix family covers)
+		best := -1
+		for i, cp := range cps {
+			if cp.Inflight == 1 && (best < 0 || cp.model.PendingChunks() > cps[best].model.PendingChunks()) {
+				best = i
+			}
+		}
+		if best >= 0 {
+			cps = cps[best : best+1]
+		}
+	}
+	for _, cp := range cps {
 		if e.stop() {
 			break
 		}
@@ -274,6 +311,20 @@ func (e *SegCrashEngine) crashBatch(n *segNode, level int, shape []int) []*segNo
 			// a write of this size has far too many torn images; take "reached the disk up to some offset"
 			// at a stride that is not a multiple of the frame alignment
 			enumerate = func(fn func(img *simdisk.State, info simdisk.ImageInfo) bool) { cp.model.EnumeratePrefixes(61, fn) }
+			switch e.bigFamily {
+			case 1:
+				enumerate = func(fn func(img *simdisk.State, info simdisk.ImageInfo) bool) {
+					cp.model.EnumeratePrefixes(e.C.BigStride[0], fn)
+					cp.model.EnumerateRanges(e.C.BigStride[1], fn)
+					cp.model.EnumerateRanges(-e.C.BigStride[2], fn)
+				}
+			case 2:
+				enumerate = func(fn func(img *simdisk.State, info simdisk.ImageInfo) bool) {
+					cp.model.EnumeratePrefixes(e.C.BigStride[3], fn)
+					cp.model.EnumerateRanges(e.C.BigStride[4], fn)
+					cp.model.EnumerateRanges(-e.C.BigStride[5], fn)
+				}
+			}
 		}
 		enumerate(func(img *simdisk.State, info simdisk.ImageInfo) bool {
 			e.Stats.Images++
@@ -309,7 +360,7 @@ func (e *SegCrashEngine) crashBatch(n *segNode, level int, shape []int) []*segNo
 				if len(e.Stats.Samples) < 3 && level >= 3 && info.Dropped > 0 && info.Landed > 0 {
 					e.Stats.Samples = append(e.Stats.Samples, map[string]interface{}{"segment_path": path, "recovered_entries": len(o.entries)})
 				}
-				if level < e.C.Depth && !seen[ih] && !e.expanded[ih] {
+				if level < e.C.Depth && !seen[ih] && !e.expanded[ih] && (e.kidFilter == nil || e.kidFilter(info, o)) {
 					seen[ih] = true
 					kids = append(kids, &segNode{st: img, entries: o.entries, path: path, gen: gen})
 				}
@@ -329,38 +380,42 @@ func sumInts(v []int) int {
 	return t
 }
 
+// segAfterOneBatch: a node with one small committed batch (recorded, image after the clean close).
+func segAfterOneBatch() *segNode {
+	mountSeq++
+	d := simdisk.NewDisk(fmt.Sprintf("s%d", mountSeq), simdisk.NewState())
+	dir := simdisk.Register(d)
+	p := segPayload(1, 1, 8)
+	ok := false
+	vsched.Run(vsched.DefaultChooser{}, 0, false, func() {
+		f := segment.NewFiler(dir, fs.New())
+		w, err := f.Create(segInfo)
+		if err != nil {
+			return
+		}
+		if w.Append([]types.LogEntry{{Index: 1, Data: p}}) == nil {
+			ok = true
+		}
+		w.Close()
+	})
+	simdisk.Unregister(d)
+	if !ok {
+		return nil
+	}
+	return &segNode{st: d.Volatile(), entries: [][]byte{p}, gen: 1}
+}
+
 // largeBatches: batches whose frames exceed the writer's 64 KiB buffer several times over, as the first batch
 // of the segment and after a committed small one; crash images = every prefix of the batch's write (stride 61
 // chunks). A batch is present in full or absent in full.
 func (e *SegCrashEngine) largeBatches() {
 	depth := e.C.Depth
 	e.C.Depth = 0 // no expansion below these images
-	defer func() { e.C.Depth = depth }()
+	limit := segInfo.SizeLimit
+	segInfo.SizeLimit = 256 << 10
+	defer func() { e.C.Depth, segInfo.SizeLimit = depth, limit }()
 	root := &segNode{st: simdisk.NewState()}
-	// a node with one small committed batch: record it and take the image after the clean close
-	var after *segNode
-	{
-		mountSeq++
-		d := simdisk.NewDisk(fmt.Sprintf("s%d", mountSeq), simdisk.NewState())
-		dir := simdisk.Register(d)
-		p := segPayload(1, 1, 8)
-		ok := false
-		vsched.Run(vsched.DefaultChooser{}, 0, false, func() {
-			f := segment.NewFiler(dir, fs.New())
-			w, err := f.Create(segInfo)
-			if err != nil {
-				return
-			}
-			if w.Append([]types.LogEntry{{Index: 1, Data: p}}) == nil {
-				ok = true
-			}
-			w.Close()
-		})
-		simdisk.Unregister(d)
-		if ok {
-			after = &segNode{st: d.Volatile(), entries: [][]byte{p}, gen: 1}
-		}
-	}
+	after := segAfterOneBatch()
 	for _, n := range []*segNode{root, after} {
 		if n == nil {
 			continue
@@ -370,6 +425,84 @@ func (e *SegCrashEngine) largeBatches() {
 				return
 			}
 			e.crashBatch(n, 1, shape)
+		}
+	}
+}
+
+// largeOutOfOrder: the pages of a write several times larger than the writer's buffer reach the disk in any
+// order. Level 1: one committed small batch, then the batch {204800, 100, 100}; images = prefixes, every range
+// of 8 KiB missing or alone landed, single chunks missing. Level 2, below images in which the batch was
+// not recovered (spread evenly, at most maxKids per shard): one-entry batches whose commit frame ends exactly
+// where a frame of the stale batch begins (its second and third entry, its commit frame, its end) - the
+// positions at which recovery's frame scan would run from new data into stale data - with the same families at
+// coarser strides. Oracle as everywhere: committed entries intact, the in-flight batch whole or absent.
+func (e *SegCrashEngine) largeOutOfOrder(maxKids int) {
+	if e.stop() {
+		return
+	}
+	depth := e.C.Depth
+	defer func() { e.C.Depth, e.bigFamily, e.kidFilter = depth, 0, nil }()
+	shape := []int{204800, 100, 100}
+	limit := segInfo.SizeLimit
+	segInfo.SizeLimit = 256 << 10 // images are as long as the file: keep them small
+	defer func() { segInfo.SizeLimit = limit }()
+	after := segAfterOneBatch()
+	if after == nil {
+		return
+	}
+	e.C.Depth, e.bigFamily = 2, 1
+	nOld := len(after.entries)
+	e.kidFilter = func(info simdisk.ImageInfo, o *segObs) bool { return len(o.entries) == nOld && info.Landed > 0 }
+	kids := e.crashBatch(after, 1, shape)
+	// tail offset after the committed batch: file header 32 + entry frame (8 + 8) + commit frame 8
+	pad8 := func(n int) int { return (n + 7) / 8 * 8 }
+	T := 32 + 8 + pad8(len(after.entries[0])) + 8
+	var ends []int
+	off := T
+	for _, sz := range shape {
+		off += 8 + pad8(sz)
+		ends = append(ends, off) // start of the next entry frame / of the commit frame
+	}
+	ends = append(ends, off+8) // end of the stale commit frame
+	var shapes2 [][]int
+	for _, end := range ends {
+		if p := end - T - 16; p > 0 {
+			shapes2 = append(shapes2, []int{p})
+		}
+	}
+	// most interesting first: the beginning of the write is missing and a later part landed (recovery sees no
+	// batch at all and stale frames stay behind zeros), then other windows, prefixes last
+	prio := func(k *segNode) int {
+		var a, b, n int
+		d := k.path[len(k.path)-1].Desc
+		if _, err := fmt.Sscanf(d, "range: pending chunks [%d,%d) of %d", &a, &b, &n); err != nil {
+			return 3
+		}
+		switch {
+		case a == 0 && strings.HasSuffix(d, "missing"):
+			return 0
+		case a > 0 && !strings.HasSuffix(d, "missing"):
+			return 1
+		}
+		return 2
+	}
+	sort.SliceStable(kids, func(i, j int) bool { return prio(kids[i]) < prio(kids[j]) })
+	var mine []*segNode
+	for i, k := range kids {
+		if e.C.NShards <= 1 || i%e.C.NShards == e.C.Shard {
+			mine = append(mine, k)
+		}
+	}
+	if len(mine) > maxKids {
+		mine = mine[:maxKids]
+	}
+	e.bigFamily, e.kidFilter = 2, nil
+	for _, k := range mine {
+		for _, sh := range shapes2 {
+			if e.stop() {
+				return
+			}
+			e.crashBatch(k, 2, sh)
 		}
 	}
 }
